@@ -54,6 +54,31 @@ pub fn binrw_write_codepage_string<const SIZE: usize>(
     Ok(())
 }
 
+/// Like [binrw_write_codepage_string], for the free-text packets LFS receives (MST, MSX, MSL, MTC),
+/// whose last byte must be zero: the text is cut to `SIZE - 1` bytes so that a terminating NUL
+/// always fits, then padded to `SIZE` bytes or, when `align_to` is given, to a multiple of it.
+#[binrw::writer(writer, endian)]
+pub fn binrw_write_codepage_string_nul_terminated<const SIZE: usize>(
+    input: &String,
+    align_to: u8,
+) -> binrw::BinResult<()> {
+    let mut res = codepages::to_lossy_bytes(input).to_vec();
+    res.truncate(SIZE - 1);
+    res.push(0);
+
+    let len = if align_to > 1 {
+        let align_to = (align_to as usize) - 1;
+        ((res.len() + align_to) & !align_to).min(SIZE)
+    } else {
+        SIZE
+    };
+    res.resize(len, 0);
+
+    res.write_options(writer, endian, ())?;
+
+    Ok(())
+}
+
 #[allow(missing_docs)]
 #[binrw::parser(reader, endian)]
 pub fn binrw_parse_codepage_string<const SIZE: usize>(raw: bool) -> binrw::BinResult<String> {
